@@ -134,7 +134,15 @@ def case_panel(rng, tier):
     Farg = None
     if per_point:
         c.tag('table:per_point')
-        Farg = np.ascontiguousarray(np.broadcast_to(np.asarray(p.F), (nx, ny, 6, 6)).copy())
+        if rng.random() < 0.7:
+            # a table that really varies from point to point: F(p) = s(p) * F; the linear stiffness of the clauses
+            # below is then the numerically integrated one with the same table
+            spt = rng.uniform(0.5, 1.5, size=(nx, ny))
+            Farg = np.ascontiguousarray(np.asarray(p.F)[None, None, :, :] * spt[:, :, None, None])
+            K0 = p.calc_k0(silent=True, c=np.zeros(size), nx=nx, ny=ny, Fnxny=Farg).toarray()
+            c.tag('table:varying')
+        else:
+            Farg = np.ascontiguousarray(np.broadcast_to(np.asarray(p.F), (nx, ny, 6, 6)).copy())
 
     def fint(cv):
         c.hit('calc_fint')
@@ -153,6 +161,8 @@ def case_panel(rng, tier):
     # the discretised pair must be consistent for ANY Gauss order (not only exact ones)
     nx2, ny2 = orders(rng, p, False)
     c.desc.update(nx_inexact=nx2, ny_inexact=ny2)
+
+    p.calc_k0(silent=True)      # back to the uniform laminate for the reduced-order pair
 
     def fint2(cv):
         return np.asarray(p.calc_fint(np.ascontiguousarray(cv), silent=True, nx=nx2, ny=ny2))
